@@ -42,14 +42,83 @@ theorem findGroup_mem (s : Store) (a : Nat) (g : Group) (h : findGroup s a = som
 structure NidInv (s : Store) : Prop where
   uniq : ∀ a b ga gb, findGroup s a = some ga → findGroup s b = some gb → ga.nid = gb.nid → a = b
   idx : s.backend = .mem → ∀ a ga, findGroup s a = some ga → alookup ga.nid s.byNid = some ga
+  nodup : s.groups.Pairwise (fun x y => x.gid ≠ y.gid)
 
 theorem nidInv_empty (b : Backend) : NidInv (Store.empty b) :=
-  ⟨fun a _ ga _ h => by simp [findGroup, Store.empty] at h, fun _ a ga h => by simp [findGroup, Store.empty] at h⟩
+  ⟨fun a _ ga _ h => by simp [findGroup, Store.empty] at h, fun _ a ga h => by simp [findGroup, Store.empty] at h,
+   by simp [Store.empty]⟩
+
+theorem mem_replaceGroup (g x : Group) (l : List Group) (h : x ∈ replaceGroup g l) : x = g ∨ x ∈ l := by
+  induction l with
+  | nil => simp [replaceGroup] at h; exact Or.inl h
+  | cons a t ih =>
+    simp only [replaceGroup] at h
+    split at h
+    · rcases List.mem_cons.mp h with e | e
+      · exact Or.inl e
+      · exact Or.inr (List.mem_cons_of_mem _ e)
+    · rcases List.mem_cons.mp h with e | e
+      · exact Or.inr (e ▸ List.mem_cons_self ..)
+      · rcases ih e with e' | e'
+        · exact Or.inl e'
+        · exact Or.inr (List.mem_cons_of_mem _ e')
+
+theorem pairwise_replaceGroup (g : Group) (l : List Group) (h : l.Pairwise (fun x y => x.gid ≠ y.gid)) :
+    (replaceGroup g l).Pairwise (fun x y => x.gid ≠ y.gid) := by
+  induction l with
+  | nil => simp [replaceGroup]
+  | cons a t ih =>
+    rw [List.pairwise_cons] at h
+    obtain ⟨h1, h2⟩ := h
+    simp only [replaceGroup]
+    split
+    · rename_i e
+      have e' : a.gid = g.gid := by simpa using e
+      rw [List.pairwise_cons]
+      exact ⟨fun y hy => by rw [← e']; exact h1 y hy, h2⟩
+    · rename_i e
+      have e' : a.gid ≠ g.gid := by simpa using e
+      rw [List.pairwise_cons]
+      refine ⟨?_, ih h2⟩
+      intro y hy
+      rcases mem_replaceGroup g y t hy with rfl | hy'
+      · exact e'
+      · exact h1 y hy'
+
+theorem find_of_pairwise (l : List Group) (h : l.Pairwise (fun x y => x.gid ≠ y.gid)) (x : Group) (hx : x ∈ l) :
+    l.find? (·.gid == x.gid) = some x := by
+  induction l with
+  | nil => cases hx
+  | cons a t ih =>
+    rw [List.pairwise_cons] at h
+    obtain ⟨h1, h2⟩ := h
+    rcases List.mem_cons.mp hx with rfl | hx'
+    · simp [List.find?]
+    · have : a.gid ≠ x.gid := h1 x hx'
+      simp only [List.find?]
+      have hb : (a.gid == x.gid) = false := by simp [this]
+      rw [hb]
+      exact ih h2 hx'
+
+theorem saveGroup_groups (s s' : Store) (g : Group) (h : saveGroup s g = some s') : s'.groups = replaceGroup g s.groups := by
+  unfold saveGroup at h
+  split at h; · cases h
+  split at h; · cases h
+  split at h; · cases h
+  split at h
+  · split at h
+    · split at h
+      · cases h
+      · cases h; rfl
+    · cases h; rfl
+  · split at h
+    · cases h
+    · cases h; rfl
 
 theorem nidInv_of_eq (s s' : Store) (h1 : s'.groups = s.groups) (h2 : s'.byNid = s.byNid) (h3 : s'.backend = s.backend)
     (h : NidInv s) : NidInv s' := by
   have fg : ∀ a, findGroup s' a = findGroup s a := fun a => by simp [findGroup, h1]
-  refine ⟨?_, ?_⟩
+  refine ⟨?_, ?_, h1 ▸ h.nodup⟩
   · intro a b ga gb ha hb; rw [fg] at ha hb; exact h.uniq a b ga gb ha hb
   · intro hm a ga ha; rw [fg] at ha; rw [h2]; exact h.idx (h3 ▸ hm) a ga ha
 
@@ -101,7 +170,7 @@ theorem saveGroup_nidInv (s s' : Store) (g : Group) (hinv : NidInv s) (h : saveG
     intro hne
     have := saveGroup_collision s g hinv ⟨b, y, hy, hn, hne⟩
     rw [this] at h; cases h
-  refine ⟨?_, ?_⟩
+  refine ⟨?_, ?_, by rw [saveGroup_groups s s' g h]; exact pairwise_replaceGroup g _ hinv.nodup⟩
   · intro a b ga gb ha hb hn
     rw [hf] at ha hb
     by_cases ea : g.gid = a <;> by_cases eb : g.gid = b
@@ -190,6 +259,27 @@ theorem saveMessage_nidInv (s s' : Store) (m : Msg) (hinv : NidInv s) (h : saveM
   split at h; · cases h
   split at h; · cases h
   cases h; exact nidInv_of_eq s _ rfl rfl rfl hinv
+
+/-- **routing**: under the invariant the store answers the nostr group id of every record with that record's
+    group — `find_group_by_nostr_group_id`, the first step of `process_message`, cannot hand an event of group `a`
+    to another group (memory: the by-id index; SQLite: the query by the UNIQUE column) -/
+theorem nidInv_routes (s : Store) (hinv : NidInv s) (a : Nat) (g : Group) (h : findGroup s a = some g) :
+    ∃ x, findGroupNostr s g.nid = some x ∧ x.gid = a := by
+  unfold findGroupNostr
+  cases hb : s.backend with
+  | mem => exact ⟨g, hinv.idx hb a g h, findGroup_gid s a g h⟩
+  | sql =>
+    simp only
+    have hmem := findGroup_mem s a g h
+    cases hf : s.groups.find? (fun x => x.nid == g.nid) with
+    | none =>
+      have := List.find?_eq_none.mp hf g hmem
+      simp at this
+    | some x =>
+      have hx : x ∈ s.groups := List.mem_of_find?_eq_some hf
+      have hxn : x.nid = g.nid := by have := List.find?_some hf; simpa using this
+      have hfx : findGroup s x.gid = some x := find_of_pairwise s.groups hinv.nodup x hx
+      exact ⟨x, rfl, hinv.uniq x.gid a x g hfx h hxn⟩
 
 /-! ### the client operations keep the invariant -/
 
